@@ -247,6 +247,9 @@ ATOMS = [
   ("('a', 'b')", ["tuple", [S("a"), S("b")]]), ("[T[1], T[2]]", ["list", [["record", "T", 1], ["record", "T", 2]]]),
   ("[T[[1]], T[[2, 1]]]", ["list", [["recordset", "T", [1]], ["recordset", "T", [2, 1]]]]),
 ]
+# every remaining entry of OBJECTS, so that each (type, object) pair is enumerated on every run
+_IN_ATOMS = set(spec[1] for _name, spec in ATOMS if spec[0] == "object")
+ATOMS += [("<%s>" % key, ["object", key]) for key in sorted(OBJECTS) if key not in _IN_ATOMS]
 
 
 def universe_spec(u):
